@@ -92,6 +92,14 @@ def tracked_array(array, dtype=None):
     # if someone passed us None, just create an empty array
     if array is None:
         array = []
+    if (
+        isinstance(array, TrackedArray)
+        and array.flags["C_CONTIGUOUS"]
+        and (dtype is None or array.dtype == np.dtype(dtype))
+    ):
+        # already tracked: a second wrapper of the same memory would
+        # have its own dirty flag and not see an edit of the first
+        return array
     # make sure it is contiguous then view it as our subclass
     tracked = np.ascontiguousarray(array, dtype=dtype).view(TrackedArray)
     # should always be contiguous here
